@@ -1,6 +1,7 @@
 import re
 import string
 from abc import ABC, abstractmethod
+from keyword import iskeyword
 
 
 class NameSanitizer(ABC):
@@ -18,4 +19,7 @@ class BuiltinNameSanitizer(NameSanitizer):
             return ""
 
         first_letter = name[0] if name[0] in string.ascii_letters else "_"
-        return first_letter + self._BAD_CHARS.sub("", name[1:].translate(self._TRANSLATE_MAP))
+        result = first_letter + self._BAD_CHARS.sub("", name[1:].translate(self._TRANSLATE_MAP))
+        if iskeyword(result):
+            return result + "_"
+        return result
